@@ -147,19 +147,21 @@ theorem escapePlain_translated (attr : Bool) (c : UInt8) :
   apply forall_byte
   cases attr <;> decide +kernel
 
-def escapeStep (attr : Bool) (c : UInt8) : Bytes :=
-  if Generated.escapePlain attr c then [c]
-  else
-    match (Generated.escapeChars.zip Generated.escapeStrings).find? (fun e => e.1 == c) with
-    | some e => 38 :: e.2 ++ [59]
-    | none =>
-      if c == 10 || c == 13 then 38 :: Generated.lineBreakStrings.getD (if c == 13 then 1 else 0) [] ++ [59]
-      else [c]
-
-theorem escapeByte_translated (attr : Bool) (c : UInt8) : escapeByte attr c = escapeStep attr c := by
+/-- `escapeString`: ONE run of the translated loop body (plain-byte test, `String::find(escapeChars, c)`, the choice between
+    `escapeStrings[escapeChar - escapeChars]` and `lineBreakStrings[c == '\r']`, the writes `&` name `;` through `dest`) appends
+    exactly the model's `escapeByte attr c` — for both modes and every byte.  (The loop header and the statements behind the
+    loop are checked by the translator; the buffer re-seating between `result.resize` and `dest = destStart + result.length()`
+    is the subject of `escape_no_overflow`.) -/
+theorem escapeByte_is_translation (attr : Bool) (c : UInt8) : escapeByte attr c = Generated.escapeString_body attr c := by
   revert c
   apply forall_byte
   cases attr <;> decide +kernel
+
+/-- … hence the model's `escape` is the concatenation of the translated loop body over the bytes of the string -/
+theorem escape_is_translation (attr : Bool) (s : Bytes) : escape attr s = s.flatMap (Generated.escapeString_body attr) := by
+  induction s with
+  | nil => rfl
+  | cons c r ih => simp [escape, escapeByte_is_translation, ih]
 
 theorem entityTable_translated : entityTable = Generated.escapeChars.zip Generated.escapeStrings := by decide
 
